@@ -580,6 +580,14 @@ Proof.
   destruct Hi as (HR & ((W & Hsel & Hex) & _) & _). split; [exact HR|]. exists W. auto.
 Qed.
 
+(* no two different entries of the open store carry the same key and timestamp (what `newest`, and
+   the hypothesis of `merge_accepted`, rely on) *)
+Theorem timestamps_unique c v : reach c -> c_v c = Some v -> ts_unique (all_entries v).
+Proof.
+  intros Hr Hv. pose proof (inv_reach c Hr) as Hi. unfold inv in Hi. rewrite Hv in Hi.
+  destruct Hi as (_ & (_ & Hu) & _). exact Hu.
+Qed.
+
 (* the sequence number of the next write is larger than every timestamp the store holds *)
 Theorem sequence_numbers_fresh c v : reach c -> c_v c = Some v ->
   forall e, In e (all_entries v) -> ets e < v_seq v + 1.
